@@ -17,7 +17,7 @@ TInit == i = 1
 
 Viol(r) ==
   LET nbad  == Cardinality({j \in 1..Len(r.kinds) : ~DecodableKind(r.kinds[j])})
-      ngood == Len(r.kinds) - nbad
+      ngood == Cardinality({j \in 1..Len(r.kinds) : HereKind(r.kinds[j])})
   IN   (IF r.rc # 0 \/ r.crashed # "NONE" THEN {"NeverFatal"} ELSE {})
   \cup (IF r.crashed = "NONE" /\ ~r.same THEN {"OutputEqualsDecodableOnly"} ELSE {})
   \cup (IF r.crashed = "NONE" /\ ~r.verbose /\ nbad > 0 /\ r.count # nbad THEN {"CountReported"} ELSE {})
